@@ -640,6 +640,7 @@ class EmptyStreamReader(StreamReader):  # lgtm [py/missing-call-to-init]
     def __init__(self) -> None:
         self._read_eof_chunk = False
         self.total_bytes = 0
+        self.total_compressed_bytes = None
 
     # Shadow the inherited slot with a property so the EMPTY_PAYLOAD singleton
     # can't be polluted with a per-response hook that would leak across
@@ -697,7 +698,12 @@ class EmptyStreamReader(StreamReader):  # lgtm [py/missing-call-to-init]
     async def read(self, n: int = -1) -> bytes:
         return b""
 
-    # TODO add async def readuntil
+    async def readuntil(
+        self, separator: bytes = b"\n", *, max_size: int | None = None
+    ) -> bytes:
+        if not separator:
+            raise ValueError("Separator should be at least one-byte string")
+        return b""
 
     async def readany(self) -> bytes:
         return b""
@@ -710,6 +716,8 @@ class EmptyStreamReader(StreamReader):  # lgtm [py/missing-call-to-init]
         return (b"", True)
 
     async def readexactly(self, n: int) -> bytes:
+        if n <= 0:
+            return b""
         raise asyncio.IncompleteReadError(b"", n)
 
     def read_nowait(self, n: int = -1) -> bytes:
